@@ -77,7 +77,8 @@ pub fn size(ftx: &FunctionContext, This(this): This<Value>) -> Result<i64> {
     let size = match this {
         Value::List(l) => l.len(),
         Value::Map(m) => m.map.len(),
-        Value::String(s) => s.len(),
+        // CEL measures strings in code points, not UTF-8 bytes.
+        Value::String(s) => s.chars().count(),
         Value::Bytes(b) => b.len(),
         value => return Err(ftx.error(format!("cannot determine the size of {:?}", value))),
     };
